@@ -70,11 +70,14 @@ type ReqSpec struct {
 	SepEnd       bool        `json:"sep_end,omitempty"`    // END_STREAM on a separate empty DATA frame
 	RespEarly    bool        `json:"resp_early,omitempty"` // respond before the upload finished
 	NoCL         bool        `json:"no_cl,omitempty"`
-	PadOnly      int         `json:"pad_only,omitempty"`  // that many padding-only DATA frames (no data bytes) before the body
-	Gated        bool        `json:"gated,omitempty"`     // the request starts when the peer script says so (action start-req)
-	AckBatch     [][2]uint32 `json:"ack_batch,omitempty"` // a SETTINGS frame written in ONE write with the header-only response
-	Status       int         `json:"status,omitempty"`    // response status (0 = 200); >= 300 with RespEarly makes the client give the upload up
-	CLShort      int         `json:"cl_short,omitempty"`  // declared Content-Length is that much smaller than the body sent
+	PadOnly      int         `json:"pad_only,omitempty"`    // that many padding-only DATA frames (no data bytes) before the body
+	SlowClose    int         `json:"slow_close,omitempty"`  // k+1: the request body's Close returns only when request k is finished
+	AfterClose   int         `json:"after_close,omitempty"` // k+1: start when the body of request k has been asked to close
+	AfterDone    int         `json:"after_done,omitempty"`  // k+1: start when request k is finished
+	Gated        bool        `json:"gated,omitempty"`       // the request starts when the peer script says so (action start-req)
+	AckBatch     [][2]uint32 `json:"ack_batch,omitempty"`   // a SETTINGS frame written in ONE write with the header-only response
+	Status       int         `json:"status,omitempty"`      // response status (0 = 200); >= 300 with RespEarly makes the client give the upload up
+	CLShort      int         `json:"cl_short,omitempty"`    // declared Content-Length is that much smaller than the body sent
 	App          string      `json:"app"`
 	AppArg       int         `json:"app_arg,omitempty"`    // prefix / cancel point / chunk size
 	RstUpload    int         `json:"rst_upload,omitempty"` // peer RST_STREAM after that many upload bytes (>0)
@@ -179,6 +182,9 @@ func (sc *Scenario) Desc() string {
 		}
 		if r.Gated {
 			b.WriteString(" gated")
+		}
+		if r.SlowClose > 0 || r.AfterClose > 0 || r.AfterDone > 0 {
+			fmt.Fprintf(&b, " slowclose=%d afterclose=%d afterdone=%d", r.SlowClose, r.AfterClose, r.AfterDone)
 		}
 		if r.AckBatch != nil {
 			fmt.Fprintf(&b, " ackbatch=%v", r.AckBatch)
@@ -725,6 +731,31 @@ func specialScenarios(start int, seed uint64, thorough bool) []*Scenario {
 			{Upload: -1, RespSize: 1, RespChunk: 16384, App: appReadAll},
 			{Upload: -1, BigHeader: hdr, RespSize: 10, RespChunk: 16384, App: appReadAll, StartDelayUs: 30000},
 			{Upload: 20000, BigHeader: hdr, RespSize: 10, RespChunk: 16384, App: appReadAll, StartDelayUs: 60000},
+		}
+		add(sc)
+	}
+	// S16: requests that get a stream id but never reach the wire (header list larger than the
+	// peer's MAX_HEADER_LIST_SIZE: refused locally after addStreamLocked), interleaved with other
+	// requests while their cleanup is held up by a slow Request.Body.Close: ids on the wire stay
+	// strictly increasing (the refused request's id is burned, never handed out again).
+	for _, n := range []int{1, 2} {
+		sc := defaultScenario(0, seed, fmt.Sprintf("S16-refused-request-slow-close-%d", n))
+		sc.PeerSettings = [][2]uint32{{3, 100}, {6, 2048}}
+		sc.Reqs = []ReqSpec{
+			{Upload: -1, RespSize: 1, RespChunk: 16384, App: appReadAll},
+			// A: refused locally, its body closes only when B is finished
+			{Upload: 1000, UnknownLen: true, BigHeader: 4096, RespSize: 1, RespChunk: 16384, App: appReadAll, StartDelayUs: 30000, SlowClose: 3},
+			// B: sent while A's cleanup hangs in Close
+			{Upload: -1, RespSize: 100, RespChunk: 16384, App: appReadAll, AfterClose: 2},
+			// C, D: after A has finished
+			{Upload: -1, RespSize: 100, RespChunk: 16384, App: appReadAll, AfterDone: 2},
+			{Upload: 500, RespSize: 100, RespChunk: 16384, App: appReadAll, AfterDone: 4},
+		}
+		if n == 2 { // a second refused request between C and D
+			sc.Reqs = append(sc.Reqs,
+				ReqSpec{Upload: 1000, UnknownLen: true, BigHeader: 4096, RespSize: 1, RespChunk: 16384, App: appReadAll, AfterDone: 4, SlowClose: 7},
+				ReqSpec{Upload: -1, RespSize: 100, RespChunk: 16384, App: appReadAll, AfterClose: 6},
+				ReqSpec{Upload: -1, RespSize: 100, RespChunk: 16384, App: appReadAll, AfterDone: 6})
 		}
 		add(sc)
 	}
